@@ -1658,6 +1658,9 @@ class ListProxy(list):
         if isinstance(index, (int, slice)):
             if self._parameter.names:
                 self._warn('[index] = object')
+            if isinstance(index, slice):
+                # (an iterator can be consumed only once)
+                object = list(object)
             with self._trigger():
                 super().__setitem__(index, object)
                 self._parameter._objects[index] = object
